@@ -3,6 +3,7 @@ import SFV.Lemmas.CombCartMain
 import SFV.Lemmas.CombNested
 import SFV.Lemmas.CombNestedCart
 import SFV.Lemmas.CombNestedDot
+import SFV.Lemmas.CombNoRaise
 /-! # C02 — combinators emit exactly the right combinations, whatever the arrival order
 
 Property theorems only. The statements are about the LOOP-FAITHFUL executable model of
@@ -76,15 +77,19 @@ theorem dot_counterexample :
     (runDot 2 [(0, ⟨[0], 100⟩), (0, ⟨[0, 0], 5⟩), (1, ⟨[0], 7⟩)]).out.length = 2 := by
   decide +kernel
 
-/-- **Negative witness (exception).** Without the antichain condition `_product` can reach `num_items ≥ 2`;
-    its loop variable `tag` is re-assigned inside the inner loop, the second iteration pops from another cell
-    and `pop()` raises `IndexError` — after five emissions on this 3-port stream without duplicate tags.
-    Reproduces on the real class (known finding). -/
-theorem dot_index_error_witness :
-    (runDot 3 [(0, ⟨[0, 0, 0, 0], 0⟩), (2, ⟨[0], 1⟩), (0, ⟨[0, 0, 0], 2⟩), (1, ⟨[0], 3⟩), (0, ⟨[0, 0], 4⟩),
+/-- **The dot product never raises** — for EVERY stream, well formed or not (true since fix 0672c9b: `_product` pops
+    `num_items = min(len …)` elements from the deques of ONE cell; the loop variable `tag` is no longer overwritten). -/
+theorem dot_never_raises (P : Nat) (es : List Ev) : (runDot P es).err = none :=
+  runWith_dot_ok P es [] []
+
+/-- Regression guard, FALSE BEFORE FIX 0672c9b: with the OLD definition (`prodIterOld`: the loop variable `tag`
+    re-assigned by `tag = utils.get_tag(…)` inside `for _ in range(num_items)`) this 3-port stream without duplicate
+    tags raised `IndexError` after five emissions; the repaired model (and class) emits six combinations. -/
+theorem dot_index_error_before_fix_0672c9b :
+    (runDotOld 3 [(0, ⟨[0, 0, 0, 0], 0⟩), (2, ⟨[0], 1⟩), (0, ⟨[0, 0, 0], 2⟩), (1, ⟨[0], 3⟩), (0, ⟨[0, 0], 4⟩),
       (1, ⟨[0, 0], 5⟩), (2, ⟨[0, 0, 0, 0], 6⟩)]).err = some Err.indexError ∧
     (runDot 3 [(0, ⟨[0, 0, 0, 0], 0⟩), (2, ⟨[0], 1⟩), (0, ⟨[0, 0, 0], 2⟩), (1, ⟨[0], 3⟩), (0, ⟨[0, 0], 4⟩),
-      (1, ⟨[0, 0], 5⟩), (2, ⟨[0, 0, 0, 0], 6⟩)]).out.length = 5 := by
+      (1, ⟨[0, 0], 5⟩), (2, ⟨[0, 0, 0, 0], 6⟩)]).out.length = 6 := by
   decide +kernel
 
 /-- the full-strength statement (every stream with distinct events, without the prefix-antichain condition) is
